@@ -2,10 +2,12 @@
 
 package sm4
 
-// The only place where the monitors call the assembly stubs that the repository's own tests do NOT pin
-// (sealAsm, openAsm, copyAsm, needExpand). If their Go declarations change, the driver rebuilds the
-// harness with tag verifnoasm (zz_verif_asmcalls_stub_test.go): the direct-call sections are skipped and
-// everything that goes through the public API still runs.
+// The only place where the monitors call the fused assembly routines that the repository's own tests do NOT pin
+// (sealAsm, openAsm). If their Go declarations change, the driver rebuilds the harness with tag verifnoasm
+// (zz_verif_asmcalls_stub_test.go): the direct-call sections are skipped and everything that goes through the
+// public API still runs. The small helpers (copyAsm, needExpand) have adapters of their own
+// (zz_verif_asmhelpers_test.go, tag verifnohelpers): a refactoring that replaces a helper by Go code must not cost
+// the direct observation of sealAsm and openAsm.
 
 const asmDirectAvailable = true
 
@@ -16,7 +18,3 @@ func vSealAsm(rk *uint32, tagSize int, dst *byte, nonce, plaintext, aad []byte, 
 func vOpenAsm(rk *uint32, tagSize int, dst *byte, nonce, ciphertext, aad []byte, temp *byte) int {
 	return openAsm(rk, tagSize, dst, nonce, ciphertext, aad, temp)
 }
-
-func vCopyAsm(dst, src *byte, n int) { copyAsm(dst, src, n) }
-
-func vNeedExpand(array []byte, asked int) int { return needExpand(array, asked) }
